@@ -9,7 +9,7 @@ use crate::common::{keypair_from_seed, peer_from_seed};
 use crate::engine::{pick_idx, CampaignCfg, CaseFail, CaseOk, CaseResult, Ctx};
 use crate::f2::{pipe, PipeCfg};
 use crate::{ensure, fail};
-use futures::{FutureExt, StreamExt};
+use futures::StreamExt;
 use litep2p::protocol::{TransportEvent, TransportService};
 use litep2p::substream::Substream;
 use litep2p::verif::scripted::{Call, ConnCommand, Inject, VerifManager};
@@ -73,6 +73,8 @@ struct Held {
 struct W {
     m: VerifManager,
     services: Vec<TransportService>,
+    /// one wake flag per service: a service is polled only when it was woken, like a task would be
+    gates: Vec<std::sync::Arc<crate::common::WakeGate>>,
     peers: Vec<PeerId>,
     live: BTreeMap<usize, PeerId>,
     /// harness timestamp taken before the latest keep-alive relevant activity on a connection
@@ -118,7 +120,7 @@ impl W {
                 }
             }
             for si in 0..self.services.len() {
-                while let Some(Some(ev)) = tokio::task::unconstrained(self.services[si].next()).now_or_never() {
+                while let Some(ev) = crate::common::next_if_woken(&mut self.services[si], &self.gates[si]) {
                     moved = true;
                     if let TransportEvent::SubstreamOpened { substream, .. } = ev {
                         self.delivered.push((si, substream));
@@ -197,6 +199,7 @@ async fn run_async(c: &Case) -> Result<(bool, bool, bool, usize), CaseFail> {
     });
     let mut w = W {
         m,
+        gates: (0..services.len()).map(|_| crate::common::WakeGate::new()).collect(),
         services,
         peers: (0..N_PEERS).map(|i| peer_from_seed(0xC0900 + i as u64)).collect(),
         live: BTreeMap::new(),
